@@ -150,8 +150,17 @@ func (r *runState) planDir(maxTotal int) *dirPlan {
 		total = t.Range(100001, maxTotal)
 	}
 	p.data = genData(t, total)
+	// every Write costs at least one frame (a full 32 KiB one in the sealed and
+	// raw modes): bound their number, the rest goes out in one piece
+	maxWrites := 1500
+	if r.mode != wireTypeCompress {
+		maxWrites = 300
+	}
 	for left := total; left > 0; {
 		n := r.drawWriteSize(t, left)
+		if len(p.writes) >= maxWrites {
+			n = left
+		}
 		p.writes = append(p.writes, n)
 		left -= n
 	}
